@@ -119,9 +119,8 @@ theorem stripOAIGenForRef_inv (hP : DocInv P) (fc : Facts) (x : Ext) (st : St) (
   unfold stripOAIGenForRef at h
   dsimp only at h
   split at h
-  · cases h
-  · rename_i p0 others _
-    obtain ⟨d1, h1, h⟩ := bind_eq_ok.1 h
+  · simp only [pure_eq_ok] at h; subst h; exact hp
+  · obtain ⟨d1, h1, h⟩ := bind_eq_ok.1 h
     have hp1 : P d1 := hP.withSchema _ _ _ _ h1 hp
     try simp only at h
     obtain ⟨replacingRef, _, h⟩ := bind_eq_ok.1 h
